@@ -169,10 +169,10 @@ CORPUS = [
     'a 1 2e0\na 1 1.5\n# EOF\n',                                #     AttributeError Timestamp.__lt__ (reflected)
     '# TYPE a counter\na_total 1' + '0' * 400 + '\n# EOF\n',    # OverflowError math.isnan(huge int)
     '# TYPE a histogram\na_bucket{le="+Inf"} -1' + '0' * 310 + '\n# EOF\n',
-    '# TYPE a histogram\na_gsum ' + NH + '\n# EOF\n',           # TypeError `None < 0` in _check_histogram (after 74e3eee)
+    '# TYPE a histogram\na_gsum ' + NH + '\n# EOF\n',           # was TypeError `None < 0` in _check_histogram (after 74e3eee; fixed 2c736ec)
     '# TYPE a histogram\na_gsum{x="y"} ' + NH + '\n# EOF\n',
     '# TYPE a histogram\na_bucket{le="+Inf"} 1\nb_gsum ' + NH + '\n# EOF\n',
-    'a 1 1' + '0' * 400 + '\na 1 2e0\n# EOF\n',                 # OverflowError in Timestamp.__float__ (after 007bfee)
+    'a 1 1' + '0' * 400 + '\na 1 2e0\n# EOF\n',                 # was OverflowError in Timestamp.__float__ (after 007bfee; fixed a186a64)
     'a 1 2e0\na 1 1' + '0' * 400 + '\n# EOF\n',
     'a 1 -1' + '0' * 400 + '.5\na 1 2e0\n# EOF\n',
     'a 1 1.5\na 1 1.25e0\n# EOF\n', 'a 1 1.25e0\na 1 1.5\n# EOF\n', 'a 1 2e0\na 1 2\n# EOF\n', 'a 1 2\na 1 2e0\na 1 2.000000001\n# EOF\n',
